@@ -101,6 +101,26 @@ def snapshot_conflict(s):
     return False
 
 
+def worktree_obstructs(s):
+    """some stored commit's snapshot cannot be written into the work tree as it stands: one of its paths is a
+    directory on disk, or lies below a regular file (C08's `--hard` clause presupposes neither: the model's
+    `restorable`, shown necessary by a witness).  `reset --hard` then stops half-way, after the branch, the
+    journals and the staging area were written: a failure during the work, not a refusal for invalid arguments."""
+    for k, v in s.objects.items():
+        if v and v.startswith(b"commit "):
+            try:
+                paths = [p for p, _ in s.flatten(s.commit(k)["tree"])]
+            except Exception:
+                continue
+            for p in paths:
+                if p in s.dirs:
+                    return True
+                parts = p.split(b"/")
+                if any(b"/".join(parts[:i]) in s.files for i in range(1, len(parts))):
+                    return True
+    return False
+
+
 def identity(s):
     l = parse_cfg_file(s.lcfg) or {}
     g = parse_cfg_file(s.gcfg) or {}
@@ -1077,6 +1097,9 @@ def o_c18(recs):
                 args = [x for x in st.argv[1:] if x not in (b"--", b"--staged")]
                 if any(i != j and (a == b_ or under(a, b_)) for i, a in enumerate(args) for j, b_ in enumerate(args)):
                     continue
+            if st.name in ("reset", "reset-flags") and b"--hard" in [x for x in st.argv if isinstance(x, bytes)] + \
+                    [x.encode() for x in st.argv if isinstance(x, str)] and worktree_obstructs(r.before):
+                continue
             if not unchanged(r.before, r.after, objects=False) and not snapshot_conflict(r.before):
                 bad.append((i, "refused command changed %s" % what_changed(r.before, r.after)))
     return bad
